@@ -25,6 +25,12 @@ def configs(tier, seed, salt=0):
         cfgs.append(dict(base, n=n, afeat=[], ifeats=[[] for _ in range(n)], igrans=[8] * n))
         cfgs.append(dict(base, n=n, afeat=ALLF, ifeats=[ALLF for _ in range(n)], igrans=[8] * n))
         cfgs.append(dict(base, n=n, afeat=["lock"], ifeats=[(["lock"] if i % 2 == 0 else []) for i in range(n)], igrans=[8] * n))
+    # many initiators (grant registers wider than 5 bits, indices beyond 32): breakage that only shows from a size upward
+    # (for these the O(N^2) next-owner clauses are proved for a directed subset of (owner, requester) pairs: see check_config)
+    for n in (34,) if tier == "quick" else (17, 33, 34, 65):
+        cfgs.append(dict(base, n=n, afeat=[], ifeats=[[] for _ in range(n)], igrans=[8] * n, big=True))
+        if salt == 9:
+            cfgs.append(dict(base, n=n, afeat=["lock"], ifeats=[(["lock"] if i % 3 else []) for i in range(n)], igrans=[8] * n, big=True))
     # all 64 arbiter feature subsets with mixed initiators, N = 2, 3
     subsets = [list(c) for r in range(7) for c in itertools.combinations(ALLF, r)]
     for af in subsets if tier == "thorough" else rng.sample(subsets, 20) + [["stall"], ["err", "rty"], ["cti"], ["bte"], ["lock", "stall"]]:
@@ -46,6 +52,9 @@ def configs(tier, seed, salt=0):
                      "igrans": [rng.choice(grans) for _ in range(n)]})
     cfgs.append({"aw": 0, "dw": 8, "agran": 8, "n": 2, "afeat": [], "ifeats": [[], ["stall"]], "igrans": [8, 8]})
     # the same components reached by other legal routes: features spelled as Feature members; refused add() calls in between
+    for c in cfgs:
+        if c.get("big") and tier == "quick":
+            c["marks"] = [0, 5, 31, 32, 33, c["n"] - 1]
     for k, c in enumerate(cfgs):
         if k % 3 == 1:
             c["enum_features"] = True
@@ -124,7 +133,14 @@ def check_config(ctx, cfg, which):
     one, zero = z3.BitVecVal(1, 1), z3.BitVecVal(0, 1)
     f0 = nl.frame("0"); f1 = nl.frame("1", prev=f0); fr = nl.frame("r", state=nl.reset_state())
 
+    _own = {}
+
     def own(frame, i):
+        if (id(frame), i) not in _own:
+            _own[id(frame), i] = own_(frame, i)
+        return _own[id(frame), i]
+
+    def own_(frame, i):
         x = frame.experiment([(it.cyc, 1 if j == i else 0) for j, it in enumerate(intrs)])
         return x.val(bus.cyc) == one
 
@@ -139,7 +155,13 @@ def check_config(ctx, cfg, which):
     ctx.sat("inv_reachable", inv(f0))
     H = [inv(f0)]
     cycs = [I(f0, it.cyc) for it in intrs]
+    big = cfg.get("big") and n > 12
+    marks = sorted({x % n for x in cfg.get("marks", (0, 1, 5, 15, 16, 17, 31, 32, 33, 63, 64, 65, n - 2, n - 1))})
+    if big:
+        ctx.cfg_note = f"N={n}: per-owner clauses proved for owners/requesters in {marks} and their neighbours only (directed subset)"
     for i, it in enumerate(intrs):
+        if big and i not in marks:
+            continue
         oi = own(f0, i)
         lock_i = I(f0, it.lock) if hasattr(it, "lock") else zero
         busy = cycs[i] == 1
@@ -182,6 +204,8 @@ def check_config(ctx, cfg, which):
         else:
             for d in range(1, n):
                 j = (i + d) % n
+                if big and not (d in (1, 2, n - 1) or j in marks):
+                    continue
                 cond = [cycs[j] == 1] + [cycs[(i + e) % n] == 0 for e in range(1, d)]
                 ctx.prove("next_owner_closest", own(f1, j), H + [oi, z3.Not(busy)] + cond, frames=fr_all)
                 # ranking: k = j requests and is not owner; after a released cycle the owner is strictly closer to k
